@@ -159,13 +159,12 @@ def _check(case):
                 return viol(f"{short}:name", f"{name}[{qi}] Series name", e.name, pt.name)
             if _kind(pt) != "scalar":
                 ei, pi = list(e.index), list(pt.index)
-                if short == "by_group_ci":
-                    sub = [x for x in pi if x in set(ei)]
-                    full = n_boot >= 30 and int(group_sizes.min()) >= 2
-                    if ei != sub or e.index.names != pt.index.names or (full and ei != pi):
-                        return viol(f"{short}:index", f"{name}[{qi}] index is not the point-estimate index (restricted to groups seen in a resample)", ei, pi)
-                elif ei != pi or e.index.names != pt.index.names:
-                    return viol(f"{short}:index", f"{name}[{qi}] index differs from the point estimate", ei, pi)
+                # statement: same index as the point estimate "for groups that occur in at least one resample" - a sensitive group or a control level that no
+                # resample contains (possible for tiny n_boot / single-member levels) is absent; everything present keeps the point estimate's order
+                sub = [x for x in pi if x in set(ei)]
+                full = n_boot >= 30 and int(group_sizes.min()) >= 2
+                if ei != sub or e.index.names != pt.index.names or (full and ei != pi):
+                    return viol(f"{short}:index", f"{name}[{qi}] index is not the point-estimate index (restricted to groups / control levels seen in a resample)", ei, pi)
             if not _same(e, ci2[qi]):
                 return viol(f"{short}:reproducible", f"{name}[{qi}] differs between two MetricFrames built with random_state={rs}",
                             [v for *_, v in _cells(e)], [v for *_, v in _cells(ci2[qi])])
